@@ -119,7 +119,17 @@ TotalStage(S, step, a, h) ==
                 recs == { <<i, ForcedRec(S.A, H.sel, mine[i].chain, mine[i].val)>> : i \in DOMAIN mine }
                 R == { x \in recs : ForcedOK(H.sel, x[2]) }
                 S2 == Consume(S, h, R, IF TotalNested(S.A, H.sel, a) THEN "ForcedTotalNested" ELSE "ForcedTotal", step)
-            IN TotalStage([S2 EXCEPT !.leaves = SelectSeq(@, LAMBDA x : ~(x.h = h /\ x.chain[1] = a))], step, a, h + 1)
+                \* the named deviation TotalDupPerDepth in forced-total mode: what is delivered for this call equals what
+                \* is owed up to repeated values (and repeated records), only when an intermediate level matches twice
+                act == ActualOf(h)
+                rest == SubSeq(act, S.ptr[h] + 1, Len(act))
+                dup == /\ Len(S2.fails) > Len(S.fails) /\ R # {} /\ rest # <<>>
+                       /\ TotalNested(S.A, H.sel, a)
+                       /\ { { <<rest[k].rec[i][1], Dedup(rest[k].rec[i][2])>> : i \in DOMAIN rest[k].rec } : k \in DOMAIN rest }
+                          = { { <<y[1], Dedup(y[2])>> : y \in x[2] } : x \in R }
+                S3 == IF dup THEN [Fail(S, "TotalRecordNested", step, h) EXCEPT !.ptr[h] = Len(act), !.at[h] = @ \o [k \in DOMAIN rest |-> S.si]]
+                      ELSE S2
+            IN TotalStage([S3 EXCEPT !.leaves = SelectSeq(@, LAMBDA x : ~(x.h = h /\ x.chain[1] = a))], step, a, h + 1)
        ELSE LET R == { <<0, r>> : r \in TotalRecs(S.A, H.sel, a) }
                 S2 == Consume(S, h, R, "TotalRecord", step)
                 act == ActualOf(h)
